@@ -309,7 +309,7 @@ theorem read_write (c : Circuit) (rh : Int) (hc : c.cells.all (fun cl => isPrope
     exact this.1
   have hrows : (write c).rows.map readRow = c.rows := readRows_write c.rows hr
   have hnames : (nodesOf c).names = names 0 c.cells.length := rfl
-  simp only [read, readNodes_write, ok_bind, readNets_write c hn, hnames, readPlace_write c hc, allSome_map, hrows,
+  simp only [read, assemble, readNodes_write, ok_bind, readNets_write c hn, hnames, readPlace_write c hc, allSome_map, hrows,
     rowHeightOf_eq c rh hh, h0, false_and, if_false, pure_eq_ok, addNets_pins c.nets hne]
   simp only [nodesOf, mkCells_map, expected]
 
